@@ -32,6 +32,13 @@ STRENGTHENED = {
     'C07-5': 'folded continuation lines that hold white space only, inside the header block',
     'C07-4': 'size-based rollover falling between the request record and the response record of one exchange; the recorder observer no longer depends on the signature of write_record',
     'C11-6': 'links made of thousands of repetitions of a short scheme-like prefix (feed:, view-source:, ../, //) in the join pairs',
+    'C09-4': 'srcset values with empty candidates (trailing / doubled commas, empty, white space only) among the HTML parts: now a concrete input',
+    'C09-5': 'CSS escape sequences, among them values above U+10FFFF, in the CSS documents and style attributes: now a concrete input',
+    'C20-7': 'absolute redirect Locations with un-normalised paths (doubled slash, dot segments): now a concrete input',
+    'C06-4': 'the start-up probe no longer calls the journal check on a half-constructed recorder (it crashed on the patched tree, which had hidden the concrete case: journal of a rolled-over file ...-00012)',
+    'C19-6': 'three times as many high-ratio bodies, a third of them complete streams in read-sized pieces each inflating to a megabyte or more',
+    'C01-5': 'fixed site: diamond with unequal arms whose long arm passes through an embedded document (-l 2 -p, five start URLs)',
+    'C01-6': 'fixed site: six URLs that one page both links and embeds (-r without -p); the reference keeps every declared context unless the scraper order was observed completely',
     'C03-5': 'a site with 1003 input lines (two committed input batches), kills between the batches; the start-up of the model became non-atomic (LAddBatch, C03_start_urls_never_lost)',
 }
 
